@@ -303,7 +303,23 @@ func genClosureOperands() string {
 		"local ok4 = pcall(function() return (function() return y end):method() end); " +
 		"local c = (function() return x end) and 1 or 2; local d = nil or function() return y end; " +
 		"local t = {}; pcall(function() ('abc').k = 1 end); pcall(function() (10).k = 2 end); (t).k = 3; " +
+		// generic for with four and five loop variables that are the function's highest registers
+		"for a1, a2, a3, a4, a5 in next, {} do end; for b1, b2, b3, b4 in pairs({}) do if b4 then break end end; " +
+		"local function lastregs() for c1, c2, c3, c4, c5, c6 in next, {} do return c6 end end; " +
 		"return r, b, ok1, ok2, ok3, ok4, c, d"
+}
+
+// genArgs: one call with n arguments (each needs its own register): at most maxRegisters fit, beyond that the
+// compiler must refuse ("register overflow") rather than wrap the register count
+func genArgs(n int) string {
+	var sb strings.Builder
+	sb.WriteString("return select('#'")
+	for i := 1; i <= n; i++ {
+		sb.WriteString(", ")
+		sb.WriteString(itoa(i))
+	}
+	sb.WriteString(")")
+	return sb.String()
 }
 
 func genItems(n int) string {
@@ -319,10 +335,12 @@ func genItems(n int) string {
 
 // C07.wf — every prototype the compiler produces is well-formed, or the compiler reports an error.
 //
-//verif:harness prop=C07 tier=quick bounds="all C01-C05 differential templates plus size-stress programs: locals in {1,100,198,199,200,201,250}, constants in {250,255,256,257,300,511,512,513,600}, constructor items in {1,49,50,51,100,120}, method names and string keys first mentioned at those constant indexes, function literals capturing locals used as conditions and as operands of not, #, unary minus, indexing and method calls; concrete programs (no symbolic input), each compiled once"
+//verif:harness prop=C07 tier=quick bounds="all C01-C05 differential templates plus size-stress programs: locals in {1,100,198,199,200,201,250}, constants in {250,255,256,257,300,511,512,513,600}, constructor items in {1,49,50,51,100,120}, call arguments in {100,198,199,200,250,254,255,256,300,520}, generic for with 4-6 loop variables, method names and string keys first mentioned at those constant indexes, function literals capturing locals used as conditions and as operands of not, #, unary minus, indexing and method calls; concrete programs (no symbolic input), each compiled once"
 func H_C07_wf() {
 	var src string
-	switch VChoice(5) {
+	switch VChoice(6) {
+	case 5:
+		src = genArgs([]int{100, 198, 199, 200, 250, 254, 255, 256, 300, 520}[VChoice(10)])
 	case 4:
 		src = genClosureOperands()
 	case 0:
